@@ -414,6 +414,16 @@ impl<'a> Checker<'a> {
                     if m.new_bytes > m.defrag_prevented_dedup_bytes {
                         self.viol("C11/reupload-new-bytes-unaccounted", format!("session {si}: new_bytes {} > defrag_prevented_dedup_bytes {} for an unchanged re-upload", m.new_bytes, m.defrag_prevented_dedup_bytes), scn, si);
                     }
+                    // every chunk was stored before, so a chunk is new only because its dedup was withheld, and a
+                    // withheld chunk is by definition stored as new: the two counters must agree exactly
+                    if m.new_bytes != m.defrag_prevented_dedup_bytes || m.new_chunks != m.defrag_prevented_dedup_chunks {
+                        self.viol(
+                            "C14/withheld-differs-from-new-on-reupload",
+                            format!("session {si}: an unchanged re-upload reports new {}B/{}c but withheld {}B/{}c", m.new_bytes, m.new_chunks, m.defrag_prevented_dedup_bytes, m.defrag_prevented_dedup_chunks),
+                            scn,
+                            si,
+                        );
+                    }
                 }
             }
             for x in &obs.new_xorbs {
@@ -621,6 +631,25 @@ pub fn family(name: &str, tier: Tier) -> Vec<Scenario> {
                         });
                     }
                 }
+            }
+        },
+        // fragmented dedup: the first session stores one 8-atom file; the second cleans every word of up to L
+        // BLOCKS, a block being a run of stored atoms (2, 3, 3 long) or a single stored atom. Refused dedup
+        // ranges of length >= 2 whose later chunks are already in the pending xorb (from an earlier refusal)
+        // are the case the withheld-bytes accounting has to get right.
+        "F9" => {
+            let base = FileSpec::new(&[0, 1, 2, 3, 4, 5, 6, 7], 0, Feed::Whole);
+            let blocks: [&[u8]; 5] = [&[0, 1], &[2, 3, 4], &[5, 6, 7], &[0], &[1]];
+            let l = tier.pick(5, 6);
+            for w in words(5, l) {
+                if w.len() < 3 {
+                    continue;
+                }
+                let atoms: Vec<u8> = w.iter().flat_map(|&b| blocks[b as usize].iter().copied()).collect();
+                v.push(Scenario {
+                    family: "F9".into(),
+                    sessions: vec![SessionSpec::seq(vec![base.clone()]), SessionSpec::seq(vec![FileSpec::new(&atoms, 0, Feed::Whole)])],
+                });
             }
         },
         // three sessions, all triples of words <= 2 over 3 atoms
